@@ -168,3 +168,12 @@ def match_known(known, prop, f):
         if k.get("rule") == f.rule and k.get("function") == f.function and norm(k.get("construct", "")) == f.construct:
             return k
     return None
+
+
+def single(results, what="the interpreted function"):
+    """the one non-raising path of an exploration; more (a helper that branches, a memo hit) or none is an analysis error - never silently the first"""
+    ok = [r for r in results if not r["raises"]]
+    if len(ok) != 1:
+        conds = "; ".join(",".join(f"{str(c)[:30]}={d}" for c, d, _ in r["cond"]) for r in ok[:4])
+        raise AnalysisError(f"{what}: expected one non-raising path, found {len(ok)}" + (f" [{conds}]" if conds else ""))
+    return ok[0]
